@@ -14,6 +14,8 @@ import (
 	"google.golang.org/grpc/status"
 	"google.golang.org/protobuf/proto"
 
+	"google.golang.org/protobuf/types/known/timestamppb"
+
 	"github.com/smart-core-os/sc-api/go/traits"
 	"github.com/smart-core-os/sc-golang/internal/minibus"
 	"github.com/smart-core-os/sc-golang/internal/testproto"
@@ -22,6 +24,7 @@ import (
 	"github.com/smart-core-os/sc-golang/pkg/router"
 	"github.com/smart-core-os/sc-golang/pkg/trait"
 	"github.com/smart-core-os/sc-golang/pkg/trait/electricpb"
+	"github.com/smart-core-os/sc-golang/pkg/trait/hailpb"
 	"github.com/smart-core-os/sc-golang/pkg/trait/metadatapb"
 	"github.com/smart-core-os/sc-golang/pkg/trait/parentpb"
 	"github.com/smart-core-os/sc-golang/pkg/wrap"
@@ -46,7 +49,7 @@ func init() {
 		{"race-router", "2-4 tasks on one router: Add/Remove/Has/Get with factory, fallback and change callback", raceRouter, []string{"pkg/router"}},
 		{"race-group", "group.Execute with every strategy, members as tasks reading their context and returning messages the caller reads", raceGroup, []string{"pkg/group"}},
 		{"race-wrap", "client task and handler task over wrap.ServerToClient (unary with header/trailer options, bidi echo with SetHeader/SetTrailer, status return, client cancel); both sides change their messages after sending", raceWrap, []string{"pkg/wrap"}},
-		{"race-models", "2-4 tasks on the electric, parent and metadata models: every public method incl. Pull consumers reading events", raceModels, []string{"pkg/trait/electricpb Model", "pkg/trait/parentpb Model", "pkg/trait/metadatapb Model", "pkg/resource"}},
+		{"race-models", "2-4 tasks on the electric, parent, metadata and hail (with its keep-alive collector) models: every public method incl. Pull consumers reading events", raceModels, []string{"pkg/trait/electricpb Model", "pkg/trait/parentpb Model", "pkg/trait/metadatapb Model", "pkg/trait/hailpb Model", "pkg/resource"}},
 		{"race-servers", "2-3 tasks call Update and Get directly on a discovered model server / memory device (requests built by reflection): whatever a server keeps besides its resources is shared between the callers", raceServers, []string{"every discovered *pb.ModelServer / MemoryDevice with a Get/Update/Pull triple", "pkg/resource"}},
 	} {
 		s := s
@@ -514,8 +517,53 @@ func raceModels(w *World) {
 	t := w.Tape
 	nt := 2 + t.Choose(3)
 	lists := make([][]raceOp, nt)
-	which := t.Choose(3)
+	which := t.Choose(4)
 	switch which {
+	case 3:
+		// a model with housekeeping of its own: the hail model's collector runs inside whichever CreateHail gets its
+		// ticket, and the ticket comes back from a timer (here: at once, or after a millisecond)
+		m := hailpb.NewModel(hailpb.WithKeepAlive([]time.Duration{0, time.Millisecond, time.Second}[t.Choose(3)]))
+		// (nothing is created up front: the collector's first run, too, is some caller's)
+		for i := range lists {
+			k := 1 + t.Choose(4)
+			for j := 0; j < k; j++ {
+				switch t.Choose(6) {
+				case 0, 1, 2:
+					lists[i] = append(lists[i], func(*Task) { r, _ := m.CreateHail(&traits.Hail{}); touch(r) })
+				case 3:
+					lists[i] = append(lists[i], func(*Task) {
+						for _, h := range m.ListHails() {
+							touch(h)
+						}
+					})
+				case 4:
+					lists[i] = append(lists[i], func(*Task) {
+						if hs := m.ListHails(); len(hs) > 0 {
+							r, _ := m.UpdateHail(&traits.Hail{Id: hs[0].Id, State: traits.Hail_ARRIVED, ArriveTime: timestamppb.New(time.Now().Add(-time.Hour))})
+							touch(r)
+						}
+					})
+				default:
+					lists[i] = append(lists[i], func(task *Task) {
+						ctx, cancel := context.WithCancel(context.Background())
+						ch := m.PullHails(ctx, resource.WithBackpressure(true))
+						task.Yield("recv")
+						select {
+						case e, ok := <-ch:
+							if ok {
+								touch(e.NewValue)
+								touch(e.OldValue)
+							}
+						default:
+						}
+						task.Yield("cancel")
+						cancel()
+						for range ch {
+						}
+					})
+				}
+			}
+		}
 	case 0:
 		ms := []*electricpb.Model{electricpb.NewModel(electricpb.WithRNG(rand.New(rand.NewSource(1))), electricpb.WithInitialMode(&traits.ElectricMode{Id: "m1", Normal: true}, &traits.ElectricMode{Id: "m2"}))}
 		if t.Flag(1, 3) {
